@@ -184,61 +184,108 @@ def _scenario(scn, given, placement, rng, srv, cl, obs):
     return obs
 
 
-def concurrent_refusals(triples, rng):
-    """Several peers are refused by ONE accepting entity at the same moment, each for its own reason (the user hook
-    picks the triple by the calling title, all hooks wait for each other before they raise).  One observation per
-    association, judged like any other refusal: each peer is told exactly what was said to IT."""
+def concurrent_endings(kind, values, rng):
+    """Several associations of ONE accepting entity are ended at the same moment, each with its own values:
+       'refuse'    - the user hook refuses each peer with the triple chosen by its calling title;
+       'req-abort' - every requester aborts with its own reason while the accepting side waits in receive();
+       'acc-abort' - every accepting service aborts with the reason chosen by the calling title.
+    All parties wait for each other right before the ending.  One observation per association, judged like the
+    corresponding single scenario: each side is told exactly what was said on ITS association."""
     import threading
-    n = len(triples)
+    n = len(values)
     barrier = threading.Barrier(n)
-    by_title = {'CL%d' % i: tuple(t) for i, t in enumerate(triples)}
+    by_title = {'CL%d' % i: tuple(t) for i, t in enumerate(values)}
+    title_of = {}
+    acc_err = {}
+    services = {}
+    lock = threading.Lock()
 
-    class Refuser(Server):
+    def meet():
+        try:
+            barrier.wait(8)
+        except threading.BrokenBarrierError:
+            pass
+
+    class Entity(Server):
         def on_association_request(self, asce, assoc):
-            t = by_title[assoc.calling_ae_title.strip()]
+            who = assoc.calling_ae_title.strip()
+            with lock:
+                title_of[id(asce)] = who
+            if kind == 'refuse':
+                meet()
+                raise exceptions.AssociationRejectedError(*by_title[who])
+    srv = Entity()
+
+    def svc(asce, ctx, msg):
+        who = title_of.get(id(asce), '?')
+        with lock:
+            services.setdefault(who, []).append('probe')
+        rsp = dm.CEchoRSPMessage()
+        rsp.message_id_being_responded_to = msg.message_id
+        rsp.sop_class_uid = msg.sop_class_uid
+        rsp.status = 0
+        if kind == 'acc-abort':
+            meet()
+            asce.abort(by_title[who][1])
+            return
+        asce.send(rsp, ctx.id)
+        if kind == 'req-abort':
             try:
-                barrier.wait(5)
-            except threading.BrokenBarrierError:
-                pass
-            raise exceptions.AssociationRejectedError(*t)
-    srv = Refuser()
-    srv.add_scp(probe_service(srv))
+                asce.receive()
+            except exceptions.AssociationAbortedError as e:
+                acc_err[who] = {'type': 'AssociationAbortedError', 'f': [e.source, e.reason_diag]}
+                raise
+            except exceptions.AssociationReleasedError:
+                acc_err[who] = {'type': 'AssociationReleasedError', 'f': []}
+                raise
+    svc.sop_classes = [sc.VERIFICATION_SOP_CLASS]
+    srv.add_scp(svc)
     out = [None] * n
     with R.Net() as net:
         net.register(ADDR, srv)
 
         def one(i):
             cl = ae_mod.ClientAE('CL%d' % i, max_pdu_length=4096).add_scu(sc.verification_scu)
-            cl.timeout = 8
-            obs = {'scn': 'refuse', 'given': list(triples[i]), 'reqErr': {'type': 'none', 'f': []}, 'entered': False,
+            cl.timeout = 10
+            obs = {'scn': kind, 'given': list(values[i]), 'reqErr': {'type': 'none', 'f': []}, 'entered': False,
                    'accErr': {'type': 'none', 'f': []}, 'services': []}
             try:
                 with cl.request_association(REMOTE) as assoc:
                     obs['entered'] = True
+                    echo = assoc.get_scu(sc.VERIFICATION_SOP_CLASS)
+                    if kind == 'req-abort':
+                        echo(1)
+                        meet()
+                        assoc.abort(values[i][1])
+                        raise UserError('done')
+                    if kind == 'acc-abort':
+                        echo(1)
+                        echo(2)
             except exceptions.AssociationRejectedError as e:
                 obs['reqErr'] = {'type': 'AssociationRejectedError', 'f': [e.result, e.source, e.diagnostic]}
             except exceptions.AssociationAbortedError as e:
                 obs['reqErr'] = {'type': 'AssociationAbortedError', 'f': [e.source, e.reason_diag]}
+            except UserError:
+                pass
             except Exception as e:          # noqa
                 obs['reqErr'] = {'type': type(e).__name__, 'f': []}
-            obs['thread'] = threading.current_thread()
             out[i] = obs
         ths = [threading.Thread(target=one, args=(i,), daemon=True) for i in range(n)]
         for t in ths:
             t.start()
         for t in ths:
-            t.join(40)
+            t.join(60)
         ok = net.wait_all(20)
-        for obs in out:
+        for i, obs in enumerate(out):
             if obs is None:
-                raise Machinery('a requesting thread of the concurrent refusals did not finish')
-            th = obs.pop('thread')
+                raise Machinery('a requesting thread of the concurrent %s scenario did not finish' % kind)
             # the connection this peer's provider opened: its first PDU carries the calling title
-            mine = [l for l in net.links if any(d['k'] == 'RQ' and bytes(d.get('calling', b'')).strip(b'\0 ') == b'CL%d' % out.index(obs) for d in R.pdus_of(l['log'], 'R'))]
+            mine = [l for l in net.links if any(d['k'] == 'RQ' and bytes(d.get('calling', b'')).strip(b'\0 ') == b'CL%d' % i for d in R.pdus_of(l['log'], 'R'))]
             link = mine[0] if mine else {'log': []}
             obs['r2a'] = wire(link, 'R')
             obs['a2r'] = wire(link, 'A')
-            obs['services'] = []
+            obs['accErr'] = acc_err.get('CL%d' % i, {'type': 'none', 'f': []})
+            obs['services'] = list(services.get('CL%d' % i, []))
             obs['handler_finished'] = bool(ok)
     return out
 
@@ -441,19 +488,27 @@ def main(tier='quick'):
         if not obs.pop('handler_finished'):
             v.report({'site': 'asceprovider.handle', 'clause': 'handler-never-finished', 'scn': scn},
                      'the accepting handler thread did not finish within 20 s in scenario %s %s %s' % (scn, given, pl), replay={'scn': scn, 'given': list(given), 'placement': pl})
-    # several peers refused at the same moment by one entity, each for its own reason
+    # several associations of one entity ended at the same moment, each with its own values
     for rep in range(3 if tier == 'quick' else 20):
-        ts = rng.sample(std, 4) + [(rng.randint(0, 255), rng.randint(0, 255), rng.randint(0, 255))]
-        try:
-            many = concurrent_refusals(ts, rng)
-        except Machinery:
-            raise
-        except Exception as exc:      # noqa
-            raise Machinery('concurrent refusals failed in the harness: %s: %s' % (type(exc).__name__, exc))
-        for obs in many:
-            obs['placement'] = 'concurrent with %d other refusals' % (len(ts) - 1)
-            obs.pop('handler_finished')
-            cases.append(obs)
+        for kind in ('refuse', 'req-abort', 'acc-abort'):
+            if kind == 'refuse':
+                vals = rng.sample(std, 4) + [(rng.randint(0, 255), rng.randint(0, 255), rng.randint(0, 255))]
+            else:
+                vals = [(0 if kind == 'req-abort' else 2, r) for r in rng.sample(range(0, 256), 5)]
+            try:
+                many = concurrent_endings(kind, vals, rng)
+            except Machinery:
+                raise
+            except Exception as exc:      # noqa
+                raise Machinery('concurrent %s failed in the harness: %s: %s' % (kind, type(exc).__name__, exc))
+            for obs in many:
+                obs['placement'] = {'refuse': 'concurrent with %d other refusals' % (len(vals) - 1), 'req-abort': 'between',
+                                    'acc-abort': 'abort-before-response'}[kind]
+                obs['concurrent'] = len(vals)
+                if not obs.pop('handler_finished'):
+                    v.report({'site': 'asceprovider.handle', 'clause': 'handler-never-finished', 'scn': kind},
+                             'an accepting handler thread did not finish within 20 s (%d associations ended at once: %s)' % (len(vals), kind))
+                cases.append(obs)
     res, stats = tlc.validate_traces('Trace_AssocLifecycle', 'Trace_AssocLifecycle.cfg', [[c] for c in cases], chunk=5000)
     for c, r in zip(cases, res):
         if r['reached'] != 1:
